@@ -1672,13 +1672,11 @@ class Stream(AbstractStream):
         
         """
         imol = self._imol
-        if hasattr(imol, '_phase'):
-            if isinstance(imol._phase, tmo._phase.LockedPhase):
-                raise RuntimeError('phase is locked; stream cannot be unlinked')
-            else:
-                imol._phase = imol._phase.copy()
-        imol._data_cache.clear()
-        imol.data = imol.data.copy()
+        if hasattr(imol, '_phase') and isinstance(imol._phase, tmo._phase.LockedPhase):
+            raise RuntimeError('phase is locked; stream cannot be unlinked')
+        # A proxy holds the same indexer object as the original stream;
+        # a new indexer (with its own data, phase and cache) ends all sharing.
+        self._imol = imol.copy()
         self._thermal_condition = self._thermal_condition.copy()
         self.reset_cache()
         self._relink_phase_streams()
